@@ -12,6 +12,18 @@ from odxtools.standardlengthtype import StandardLengthType
 
 FRAGS = [OdxDocFragment("Verif", DocType.CONTAINER)]
 
+# Every identifiable object a description is made of is noted here while the description is built; request() /
+# response() then register all of them in a real OdxLinkDatabase and run the library's own _resolve_odxlinks /
+# _resolve_snrefs over the description (the private attributes the builders pre-set are overwritten by what the real
+# resolution code finds), so that the reference-resolution code of parameters, DOPs, fields, multiplexer cases, tables
+# ... is part of the stack the obligations judge.
+REGISTRY = []
+
+
+def note(obj):
+    REGISTRY.append(obj)
+    return obj
+
 
 def std_type(bits=8, dt=DataType.A_UINT32, enc=None, hl=None, mask=None, condensed=None):
     return StandardLengthType(base_data_type=dt, base_type_encoding=enc, bit_length=bits, bit_mask=mask,
@@ -24,12 +36,12 @@ def identical(dt=DataType.A_UINT32):
 
 
 def dop(name="dop", bits=8, dt=DataType.A_UINT32, compu_method=None, dct=None, phys_dt=None, precision=None):
-    return DataObjectProperty(odx_id=OdxLinkId(f"id.{name}", FRAGS), oid=None, short_name=name, long_name=None,
+    return note(DataObjectProperty(odx_id=OdxLinkId(f"id.{name}", FRAGS), oid=None, short_name=name, long_name=None,
                               description=None, admin_data=None, diag_coded_type=dct or std_type(bits, dt),
                               physical_type=PhysicalType(base_data_type=phys_dt or dt, display_radix=None,
                                                          precision=precision),
                               compu_method=compu_method or identical(dt), unit_ref=None, sdgs=[],
-                              internal_constr=None, physical_constr=None)
+                              internal_constr=None, physical_constr=None))
 
 
 def value_param(name, the_dop, byte_position=None, bit_position=None, default=None, semantic=None):
@@ -124,14 +136,55 @@ def system_param(name, the_dop, sysparam, byte_position=None):
 
 
 def request(params, name="rq"):
-    return Request(odx_id=OdxLinkId(f"id.{name}", FRAGS), oid=None, short_name=name, long_name=None,
-                   description=None, admin_data=None, parameters=NamedItemList(params), sdgs=[])
+    return finish(Request(odx_id=OdxLinkId(f"id.{name}", FRAGS), oid=None, short_name=name, long_name=None,
+                          description=None, admin_data=None, parameters=NamedItemList(params), sdgs=[]))
 
 
 def response(params, name="resp", kind="POSITIVE"):
-    return Response(odx_id=OdxLinkId(f"id.{name}", FRAGS), oid=None, short_name=name, long_name=None,
-                    description=None, admin_data=None, parameters=NamedItemList(params), sdgs=[],
-                    response_type=ResponseType[kind])
+    return finish(Response(odx_id=OdxLinkId(f"id.{name}", FRAGS), oid=None, short_name=name, long_name=None,
+                           description=None, admin_data=None, parameters=NamedItemList(params), sdgs=[],
+                           response_type=ResponseType[kind]))
+
+
+class _Layer:
+    """the diagnostic layer as short-name resolution sees it: the data dictionary of everything that was built"""
+
+    def __init__(self, objs):
+        self.diag_data_dictionary_spec = _DDD(objs)
+
+
+class _DDD:
+
+    def __init__(self, objs):
+        from odxtools.environmentdatadescription import EnvironmentDataDescription
+        from odxtools.structure import Structure
+        from odxtools.table import Table
+        self.data_object_props = NamedItemList([o for o in objs if isinstance(o, DataObjectProperty)])
+        self.structures = NamedItemList([o for o in objs if isinstance(o, Structure)])
+        self.env_data_descs = NamedItemList([o for o in objs if isinstance(o, EnvironmentDataDescription)])
+        self.tables = NamedItemList([o for o in objs if isinstance(o, Table)])
+        self.all_data_object_properties = NamedItemList([o for o in objs if not isinstance(o, Table)])
+
+
+def finish(codec):
+    """register everything built for this description and let the library resolve its references itself"""
+    from odxtools.odxlink import OdxLinkDatabase
+    from odxtools.snrefcontext import SnRefContext
+    objs = list(REGISTRY)
+    del REGISTRY[:]
+    db = OdxLinkDatabase()
+    for o in objs:
+        db.update(o._build_odxlinks())
+    db.update(codec._build_odxlinks())
+    for o in objs:
+        o._resolve_odxlinks(db)
+    codec._resolve_odxlinks(db)
+    context = SnRefContext(database=None)
+    context.diag_layer = _Layer(objs)
+    for o in objs:
+        o._resolve_snrefs(context)
+    codec._resolve_snrefs(context)
+    return codec
 
 
 # ------------------------------------------------------------------------------------------------ complex DOPs
@@ -141,9 +194,9 @@ from odxtools.structure import Structure  # noqa: E402
 
 
 def structure(name, params, byte_size=None):
-    return Structure(odx_id=OdxLinkId(f"id.{name}", FRAGS), oid=None, short_name=name, long_name=None,
+    return note(Structure(odx_id=OdxLinkId(f"id.{name}", FRAGS), oid=None, short_name=name, long_name=None,
                      description=None, admin_data=None, sdgs=[], parameters=NamedItemList(params),
-                     byte_size=byte_size, is_visible_raw=None)
+                     byte_size=byte_size, is_visible_raw=None))
 
 
 def end_of_pdu_field(name, struct, min_items=None, max_items=None):
@@ -153,7 +206,7 @@ def end_of_pdu_field(name, struct, min_items=None, max_items=None):
                       min_number_of_items=min_items, max_number_of_items=max_items)
     f._structure = struct
     f._env_data_desc = None
-    return f
+    return note(f)
 
 
 def static_field(name, struct, n_items, item_byte_size):
@@ -163,7 +216,7 @@ def static_field(name, struct, n_items, item_byte_size):
                     fixed_number_of_items=n_items, item_byte_size=item_byte_size)
     f._structure = struct
     f._env_data_desc = None
-    return f
+    return note(f)
 
 
 # ------------------------------------------------------------------------------------------------ further DOP kinds
@@ -190,7 +243,7 @@ def dynamic_length_field(name, struct, count_dop, offset=1, count_byte_position=
                            determine_number_of_items=det)
     f._structure = struct
     f._env_data_desc = None
-    return f
+    return note(f)
 
 
 def dtc(code, name):
@@ -207,7 +260,7 @@ def dtc_dop(name, dtcs, bits=16):
                is_visible_raw=None)
     d._dtcs = NamedItemList(dtcs)
     d._linked_dtc_dops = NamedItemList()
-    return d
+    return note(d)
 
 
 from odxtools.multiplexer import Multiplexer  # noqa: E402
@@ -241,9 +294,9 @@ def mux(name, key_dop, cases, byte_position=1, key_byte_position=0, default=None
                                     structure_ref=None if default[1] is None else OdxLinkRef.from_id(default[1].odx_id),
                                     structure_snref=None)
         dc._structure = default[1]
-    return Multiplexer(odx_id=OdxLinkId(f"id.{name}", FRAGS), oid=None, short_name=name, long_name=None,
+    return note(Multiplexer(odx_id=OdxLinkId(f"id.{name}", FRAGS), oid=None, short_name=name, long_name=None,
                        description=None, admin_data=None, sdgs=[], byte_position=byte_position, switch_key=sk,
-                       default_case=dc, cases=NamedItemList(mcs), is_visible_raw=None)
+                       default_case=dc, cases=NamedItemList(mcs), is_visible_raw=None))
 
 
 from odxtools.parameters.tablekeyparameter import TableKeyParameter  # noqa: E402
@@ -274,7 +327,7 @@ def table(name, key_dop, rows):
         trs.append(tr)
     t.table_rows_raw = list(trs)
     t._table_rows = NamedItemList(trs)
-    return t
+    return note(t)
 
 
 def table_key(name, tbl, byte_position=None, fixed_row=None):
@@ -333,7 +386,7 @@ def dynamic_endmarker_field(name, struct, end_dop, termination_value_raw):
     f._env_data_desc = None
     f._dyn_end_dop = end_dop
     f._termination_value = end_dop.diag_coded_type.base_data_type.from_string(termination_value_raw)
-    return f
+    return note(f)
 
 
 from odxtools.environmentdata import EnvironmentData  # noqa: E402
@@ -347,7 +400,7 @@ def env_data(name, params, dtc_values=(), all_value=None):
 
 
 def env_data_desc(name, dtc_param_name, env_datas):
-    return EnvironmentDataDescription(odx_id=OdxLinkId(f"id.{name}", FRAGS), oid=None, short_name=name,
+    return note(EnvironmentDataDescription(odx_id=OdxLinkId(f"id.{name}", FRAGS), oid=None, short_name=name,
                                       long_name=None, description=None, admin_data=None, sdgs=[],
                                       param_snref=dtc_param_name, param_snpathref=None,
-                                      env_datas=NamedItemList(env_datas), env_data_refs=[])
+                                      env_datas=NamedItemList(env_datas), env_data_refs=[]))
